@@ -136,7 +136,7 @@ def do_step(w, op):
         i = w.pick(size_ok)
         if i is None: return None
         x = P[i]
-        cands = [j for j, y in enumerate(P) if y.is_ttm == x.is_ttm and list(y.N) == list(x.N) and Mof(y) == Mof(x) and size_ok(y)]
+        cands = [j for j, y in enumerate(P) if y.is_ttm == x.is_ttm and list(y.N) == list(x.N) and Mof(y) == Mof(x) and size_ok(y) and y.cores[0].dtype == x.cores[0].dtype]
         j = rng.choice(cands)
         if max(x.R) * max(P[j].R) > 30 and op == "mul": return None
         o = x + P[j] if op == "add" else (x - P[j] if op == "sub" else x * P[j])
@@ -144,7 +144,7 @@ def do_step(w, op):
     if op == "kron":
         i = w.pick(lambda o: len(o.N) <= 3); 
         if i is None: return None
-        j = w.pick(lambda o: o.is_ttm == P[i].is_ttm and len(o.N) <= 3)
+        j = w.pick(lambda o: o.is_ttm == P[i].is_ttm and len(o.N) <= 3 and o.cores[0].dtype == P[i].cores[0].dtype)
         if j is None: return None
         o = P[i] ** P[j]
         w.add(o, "KKron %d %d" % (i, j)); return "kron(%d,%d)" % (i, j), None
@@ -153,12 +153,12 @@ def do_step(w, op):
         if i is None: return None
         A = P[i]
         r = rng.random()
-        cands = [j for j, y in enumerate(P) if size_ok(y) and max(y.R) * max(A.R) <= 30 and
+        cands = [j for j, y in enumerate(P) if size_ok(y) and y.cores[0].dtype == A.cores[0].dtype and max(y.R) * max(A.R) <= 30 and
                  ((not y.is_ttm and list(y.N) == list(A.N)) or (y.is_ttm and Mof(y) == list(A.N)))]
         if cands and r < 0.7:
             j = rng.choice(cands); o = A @ P[j]
             w.add(o, "KMatmul %d %d" % (i, j)); return "matmul(%d,%d)" % (i, j), None
-        cands = [j for j, y in enumerate(P) if not y.is_ttm and list(y.N) == Mof(A) and max(y.R) * max(A.R) <= 30]
+        cands = [j for j, y in enumerate(P) if not y.is_ttm and y.cores[0].dtype == A.cores[0].dtype and list(y.N) == Mof(A) and max(y.R) * max(A.R) <= 30]
         if cands:
             j = rng.choice(cands); o = P[j] @ A
             w.add(o, "KMatmul %d %d" % (j, i)); return "vecmat(%d,%d)" % (j, i), None
@@ -225,7 +225,7 @@ def do_step(w, op):
         i = w.pick(lambda o: not o.is_ttm)
         if i is None: return None
         x = P[i]; dim = rng.randrange(len(x.N))
-        cands = [j for j, y in enumerate(P) if not y.is_ttm and len(y.N) == len(x.N) and all(a == b or k == dim for k, (a, b) in enumerate(zip(x.N, y.N)))]
+        cands = [j for j, y in enumerate(P) if not y.is_ttm and y.cores[0].dtype == x.cores[0].dtype and len(y.N) == len(x.N) and all(a == b or k == dim for k, (a, b) in enumerate(zip(x.N, y.N)))]
         j = rng.choice(cands)
         o = torchtt.cat((x, P[j]), dim)
         w.add(o, "KNew %s" % shlist_coq(o)); return "cat(%d,%d,%d)" % (i, j, dim), None
@@ -245,7 +245,7 @@ def do_step(w, op):
         i = w.pick(lambda o: not o.is_ttm)
         if i is None: return None
         x = P[i]; k = rng.randrange(len(x.N))
-        Mx = torch.tensor(ttgen.rand_core(rng, (rng.choice([1, 2, 3]), int(x.N[k]))), dtype=dt)
+        Mx = torch.tensor(ttgen.rand_core(rng, (rng.choice([1, 2, 3]), int(x.N[k]))), dtype=x.cores[0].dtype)
         o = x.mprod(Mx, k)
         w.add(o, "KNew %s" % shlist_coq(o)); return "mprod(%d,%d)" % (i, k), None
     if op == "set_core":
@@ -334,7 +334,7 @@ def do_step(w, op):
         if i is None: return None
         if op == "norm": P[i].norm()
         else:
-            c = [j for j, y in enumerate(P) if not y.is_ttm and list(y.N) == list(P[i].N)]
+            c = [j for j, y in enumerate(P) if not y.is_ttm and list(y.N) == list(P[i].N) and y.cores[0].dtype == P[i].cores[0].dtype]
             torchtt.dot(P[i], P[rng.choice(c)])
         return "%s(%d)" % (op, i), None
     if op == "saveload":
